@@ -184,7 +184,8 @@ type ExploreStats struct {
 	Executions int64
 	ChoicePts  int64
 	MaxDepth   int
-	Truncated  bool // the deviation bound cut alternatives
+	Diverged   int64 // executions whose replayed prefix met another enabled set (tolerated nondeterminism)
+	Truncated  bool  // the deviation bound cut alternatives
 	BoundHit   int64
 	Outcomes   map[string]int64
 	Schedules  [][]string // kept schedules (for engine R), if Keep > 0
@@ -197,6 +198,8 @@ type ExploreOpts struct {
 	Filter   func(name string) bool
 	MaxExec  int64
 	Expired  func() bool
+	// TolerateDivergence: a replayed prefix that meets another enabled set is not an error (see Explore).
+	TolerateDivergence bool
 }
 
 // Explore enumerates the schedules of the scenario produced by mk.
@@ -216,7 +219,16 @@ func Explore(mk func() World, opts ExploreOpts, onExec func(x *Exec, f *Finding,
 			f = F("sched-harness-panic", "%s (schedule %v)", pan, x.Schedule)
 		}
 		if f == nil && x.Diverged != "" {
-			f = F("sched-replay-diverged", "un-owned nondeterminism: %s", x.Diverged)
+			if opts.TolerateDivergence {
+				// the scenario contains nondeterminism the harness cannot own (e.g. Go map iteration inside
+				// the code under test): the execution is still a valid one and has been judged; the search
+				// just cannot steer it. Counted, not reported.
+				mu.Lock()
+				st.Diverged++
+				mu.Unlock()
+			} else {
+				f = F("sched-replay-diverged", "un-owned nondeterminism: %s", x.Diverged)
+			}
 		}
 		onExec(x, f, leak)
 		var next []item
